@@ -63,13 +63,22 @@ SubOK ==
     /\ T.strict => \A i \in 1..(nextSub - 1) : subs[i] \cap subs[nextSub] = {}
     /\ T.closure => Flagged = DepClosure(Targets)      \* the engine built the graph from targets
 
+(* Second look (C02 only) at an execution already rejected for the ORDER of    *)
+(* its attempts (DepsBefore, C01's clause): the order is taken as observed and  *)
+(* the execution is judged against the final broker instead - a component      *)
+(* whose requirements are met there must have been invoked, a spec with an      *)
+(* implementation that produced a value must hold a value.                      *)
+Lenient == "lenient" \in DOMAIN T
+FinalLive(c)  == c \in Graph /\ prog[c].enabled /\ c \notin Seeded /\ ~IgnoredNow(inst, c)
+FinalIffOK(c) == (FinalLive(c) /\ Ready(inst, c)) => (IF Kind(c) = "point" THEN Has(inst, c) ELSE Fired(c))
+
 AttGuard(w, c) ==
     /\ w \in DOMAIN cur /\ c \in Comp
     /\ cur[w] # 0
     /\ c \in SubAll(cur[w])
     /\ c \notin AttemptedIn(cur[w])                                   \* AtMostOnce
     /\ c \in Graph => c \notin Attempted                              \* AtMostOnce, across sub-graphs
-    /\ c \in Graph => \A d \in DepSet(c) \cap Graph : d \in Attempted  \* DepsBefore
+    /\ c \in Graph => (Lenient \/ \A d \in DepSet(c) \cap Graph : d \in Attempted)  \* DepsBefore
 
 (* "exactly the missing required dependencies and unsatisfied groups": the  *)
 (* report is compared as a set of dependencies and a set of groups; that the *)
@@ -106,6 +115,7 @@ AttOK ==
 
 EndOK(E) ==
     /\ AllDone
+    /\ Lenient => \A c \in Comp : FinalIffOK(c)
     /\ \A r \in E : RecAllowed(r, r.by)
     /\ \A c \in Comp : \A r \in RaisedBy(c) :
          /\ r[2] \in HardFail => \E e \in E : e.by = c /\ e.kind = r[2] /\ e.el = r[1] /\ e.tb
@@ -179,6 +189,8 @@ DiagAtt ==
 DiagEnd ==
     LET E == excs \cup Rng(Ev.recs) IN
     IF ~AllDone THEN "PartitionExact.component-lost"
+    ELSE IF Lenient /\ \E c \in Comp : ~FinalIffOK(c)
+         THEN "FiresIff.requirements-met-at-the-end-but-not-invoked:" \o Kind(CHOOSE c \in Comp : ~FinalIffOK(c))
     ELSE IF \E r \in E : ~RecAllowed(r, r.by) THEN "NothingElsewhere"
     ELSE IF \E c \in Comp : \E r \in RaisedBy(c) :
               r[2] \in HardFail /\ ~\E e \in E : e.by = c /\ e.kind = r[2] /\ e.el = r[1] /\ e.tb THEN
